@@ -124,12 +124,71 @@ func descLin(l *lin) string {
 }
 
 // reachable: module functions reachable from the entries (static and dynamic edges).
+// pureReader: a module function whose transitive write summary is empty, that allocates nothing and
+// makes no dynamic call: its result is a function of its arguments and of memory.
+func (pe *PEngine) pureReader(fn *ssa.Function) bool {
+	if v, ok := pe.pureMemo[fn]; ok {
+		return v
+	}
+	if pe.pureMemo == nil {
+		pe.pureMemo = map[*ssa.Function]bool{}
+	}
+	pe.pureMemo[fn] = false
+	sum, ok := pe.O.Sums[fn]
+	if !ok || len(sum.Writes) > 0 || len(fn.Blocks) == 0 {
+		return false
+	}
+	for _, b := range fn.Blocks {
+		for _, ins := range b.Instrs {
+			switch x := ins.(type) {
+			case *ssa.Alloc:
+				if x.Heap {
+					return false
+				}
+			case *ssa.MakeSlice, *ssa.MakeMap, *ssa.MakeChan, *ssa.MakeClosure, *ssa.Go, *ssa.Defer, *ssa.Send, *ssa.Select, *ssa.MapUpdate:
+				return false
+			case *ssa.Call:
+				if _, isB := x.Call.Value.(*ssa.Builtin); isB {
+					if n := x.Call.Value.(*ssa.Builtin).Name(); n != "len" && n != "cap" {
+						return false
+					}
+					continue
+				}
+				sc := x.Call.StaticCallee()
+				if sc == nil || !inScope(pkgPathOf(sc)) || !pe.pureReader(sc) {
+					return false
+				}
+			}
+		}
+	}
+	pe.pureMemo[fn] = true
+	return true
+}
+
 func (pe *PEngine) reachable(entries []*ssa.Function) []*ssa.Function {
 	seen := map[*ssa.Function]bool{}
 	var order []*ssa.Function
 	var visit func(f *ssa.Function)
 	visit = func(f *ssa.Function) {
-		if f == nil || seen[f] || len(f.Blocks) == 0 || !inScope(pkgPathOf(f)) {
+		if f == nil || seen[f] || len(f.Blocks) == 0 {
+			return
+		}
+		if !inScope(pkgPathOf(f)) {
+			// compiler-made wrappers (bound-method closures such as tx.CalcInputPreimage taken as a value,
+			// interface thunks) belong to no package: looked through, not analysed themselves
+			if f.Synthetic == "" {
+				return
+			}
+			seen[f] = true
+			for _, b := range f.Blocks {
+				for _, ins := range b.Instrs {
+					if ci, ok := ins.(ssa.CallInstruction); ok {
+						if sc := ci.Common().StaticCallee(); sc != nil {
+							visit(sc)
+						}
+					}
+				}
+			}
 			return
 		}
 		seen[f] = true
@@ -977,15 +1036,43 @@ func (pe *PEngine) liftToCallers(p *pci, goals []*lin) (bool, string) {
 		if !ok {
 			return false, ""
 		}
-		for _, g := range goals {
+		// a call whose arguments contradict a condition guarding the site inside the callee never reaches it
+		// (OutputsHash(-1) does not index the outputs)
+		trLin := func(g *lin) *lin {
 			cg := newLin()
 			cg.c.Set(g.c)
 			for k, co := range g.coef {
+				if !transl(g.atoms[k], 0) {
+					return nil
+				}
 				tv := translateVN(cpf, g.atoms[k], args, at)
 				if tv == nil {
-					return false, ""
+					return nil
 				}
 				cg = cg.addScaled(cpf.linOf(tv), co)
+			}
+			return cg
+		}
+		excluded := false
+		for _, f := range pe.pf(p.fn).factsAt(p.ins.Block()).facts {
+			switch {
+			case f.l != nil:
+				if cl := trLin(f.l); cl != nil && cpf.proveAt(e.Site.Block(), pgoal{l: cl.neg().addConst(-1)}, nil, 0) {
+					excluded = true
+				}
+			case f.neq != nil:
+				if cl := trLin(f.neq); cl != nil && cpf.proveAt(e.Site.Block(), pgoal{l: cl}, nil, 0) && cpf.proveAt(e.Site.Block(), pgoal{l: cl.neg()}, nil, 0) {
+					excluded = true
+				}
+			}
+		}
+		if excluded {
+			continue
+		}
+		for _, g := range goals {
+			cg := trLin(g)
+			if cg == nil {
+				return false, ""
 			}
 			if !cpf.proveAt(e.Site.Block(), pgoal{l: cg}, nil, 0) {
 				return false, ""
@@ -1132,6 +1219,7 @@ func (pe *PEngine) liftNilToCallers(p *pci) (bool, string) {
 var liftExported = map[string]bool{
 	"bt.LittleEndianBytes":    true, // documented as a 4-byte (uint32) encoder; every library caller passes 4
 	"(*bscript.Script).Slice": true, // a slicing helper with the contract of s[start:end]; arguments are the caller's responsibility
+	"(*bt.Tx).OutputsHash":    true, // documented: n is -1 (all outputs) or the index of the requested output; the library's own callers check the index
 }
 
 // translateVN rebuilds a callee number (a function of parameters and entry-state memory)
